@@ -80,6 +80,45 @@ fn p_owned_clone_clone() {
     drop(keep);
     assert!(unsafe { ORIG_DROPPED } == 1);
 }
+//@ prefix=p_raw kind=property clause=a caller's waker that is NOT Arc-based (hand-written RawWaker vtable, arbitrary data word incl. null — e.g. a task id): every clone taken on the foreign side's behalf is released exactly once through the waker's own drop function, wakes reach the waker's own wake functions with the original data word, once each
+static mut RW_CLONES: u32 = 0;
+static mut RW_DROPS: u32 = 0;
+static mut RW_WAKES: u32 = 0;
+static mut RW_DATA_OK: bool = true;
+static mut RW_DATA: usize = 0;
+unsafe fn rw_clone(p: *const ()) -> core::task::RawWaker { RW_CLONES += 1; RW_DATA_OK &= p as usize == RW_DATA; core::task::RawWaker::new(p, &RW_VT) }
+unsafe fn rw_wake(p: *const ()) { RW_WAKES += 1; RW_DROPS += 1; RW_DATA_OK &= p as usize == RW_DATA; }
+unsafe fn rw_wake_by_ref(p: *const ()) { RW_WAKES += 1; RW_DATA_OK &= p as usize == RW_DATA; }
+unsafe fn rw_drop(p: *const ()) { RW_DROPS += 1; RW_DATA_OK &= p as usize == RW_DATA; }
+static RW_VT: core::task::RawWakerVTable = core::task::RawWakerVTable::new(rw_clone, rw_wake, rw_wake_by_ref, rw_drop);
+#[kani::proof]
+#[kani::unwind(3)]
+fn p_raw_vtable_waker() {
+    let data: usize = kani::any();
+    unsafe { RW_DATA = data };
+    let waker = unsafe { Waker::from_raw(core::task::RawWaker::new(data as *const (), &RW_VT)) };
+    let c = CRefWaker::from(&waker);
+    let retained = c.with_waker(|w| {
+        w.wake_by_ref();
+        assert!(unsafe { RW_WAKES } == 1 && unsafe { RW_CLONES } == 0, "C19 wake_by_ref on the borrowed view wakes once and takes no clone");
+        let f = w.clone();
+        assert!(unsafe { RW_CLONES } == 1, "C19 cloning the borrowed view takes one clone of the original");
+        let g = f.clone();
+        g.wake_by_ref();
+        assert!(unsafe { RW_WAKES } == 2, "C19 wake_by_ref on an owned waker wakes once");
+        drop(g);
+        f
+    });
+    assert!(unsafe { RW_DROPS } == 0, "C19 a retained waker keeps its clone of the original");
+    let by_value: bool = kani::any();
+    if by_value { retained.wake(); assert!(unsafe { RW_WAKES } == 3, "C19 wake by value wakes the original once"); } else { drop(retained); assert!(unsafe { RW_WAKES } == 2, "C19 drop does not wake"); }
+    assert!(unsafe { RW_DROPS } == unsafe { RW_CLONES }, "C19 every clone taken on the foreign side's behalf is released exactly once (also for a waker whose data word is null)");
+    assert!(unsafe { RW_DATA_OK }, "C19 the original's functions are called with the original's data word");
+    drop(waker);
+    assert!(unsafe { RW_DROPS } == unsafe { RW_CLONES } + 1, "C19 the caller's own waker is released by the caller only");
+    kani::cover!(data == 0 && by_value, "null data word, wake by value");
+    kani::cover!(data != 0 && !by_value, "non-null data word, drop");
+}
 //@ prefix=p_retained kind=property clause=wakers retained after the poll returned keep working and release their clone exactly once; nothing touches the original after all of them are gone
 #[kani::proof]
 #[kani::unwind(3)]
